@@ -311,3 +311,51 @@ Theorem fetched_iff_candidate st q ign fill sp u :
 Proof.
   intros Hwf Hn Hf Hw. split; [apply fetched_are_candidates; assumption|apply candidates_reach_selection; assumption].
 Qed.
+
+(** * `many` blocks: served whenever the candidates together cover the requested amount *)
+Lemma order_by_perm ord l :
+  NoDup (map u_ref l) -> order_ok ord l = true -> order_by ord l ≡ₚ l.
+Proof.
+  intros Hnd Ho. unfold order_ok in Ho. apply andb_true_iff in Ho as [Ho Hsub]. apply andb_true_iff in Ho as [Hlen Hndo].
+  apply Nat.eqb_eq in Hlen. apply nodupb_spec in Hndo.
+  assert (Hsub' : forall y, y ∈ ord -> y ∈ map u_ref l).
+  { intros y Hy. rewrite forallb_forall in Hsub. apply elem_of_list_In in Hy. specialize (Hsub _ Hy).
+    unfold mem in Hsub. apply bool_decide_eq_true in Hsub. exact Hsub. }
+  assert (Hp : ord ≡ₚ map u_ref l).
+  { apply submseteq_Permutation_length_le; [rewrite map_length; lia|apply NoDup_submseteq; assumption]. }
+  apply NoDup_Permutation.
+  - eapply NoDup_fmap_1. apply (Select_proofs.order_by_nodup ord l Hndo).
+  - eapply NoDup_fmap_1. exact Hnd.
+  - intros u. split.
+    + apply order_by_elem.
+    + intros Hu. apply order_by_complete; [exact Hnd|exact Hu|]. rewrite Hp. apply elem_of_list_fmap. exists u. split; [reflexivity|exact Hu].
+Qed.
+
+Theorem many_block_served st q ign o sp :
+  wf_store st -> store_nonneg st -> q_many q = true ->
+  narrow st q = Ok sp ->
+  order_ok (o_sorted o) (fetched_cands st sp q ign (o_fill o)) = true ->
+  nonneg (target_of q) ->
+  fetched_cands st sp q ign (o_fill o) <> [] ->
+  (forall k, get0 (target_of q) k <= get0 (total (fetched_cands st sp q ign (o_fill o))) k) ->
+  select st sp q ign o <> [].
+Proof.
+  intros Hwf Hnn Hm Hn Ho Ht Hne Hcov. unfold select. rewrite Hm.
+  set (fetched := fetched_cands st sp q ign (o_fill o)) in *.
+  assert (Hnd : NoDup (map u_ref fetched)).
+  { unfold fetched, fetched_cands, fetch. apply NoDup_map_filter_ref.
+    destruct (q_coll q); [apply NoDup_map_filter_ref|]; apply NoDup_map_filter_ref; exact Hwf. }
+  pose proof (order_by_perm (o_sorted o) fetched Hnd Ho) as Hp.
+  assert (Hst : forall u, u ∈ fetched -> u ∈ st).
+  { intros u Hu. unfold fetched, fetched_cands in Hu. apply elem_of_list_filter in Hu as [_ Hu].
+    destruct (q_coll q); [apply elem_of_list_filter in Hu as [_ Hu]|]; unfold fetch in Hu; apply elem_of_list_filter in Hu as [_ Hu]; exact Hu. }
+  apply pick_many_complete.
+  - rewrite Hp. exact Hnd.
+  - intros u Hu. apply Hnn, Hst. rewrite <- Hp. exact Hu.
+  - exact Ht.
+  - intros E. apply Hne. rewrite E in Hp. apply Permutation_nil in Hp. exact Hp.
+  - intros k. specialize (Hcov k). unfold total in *.
+    assert (Hs : a_sum (map u_assets (order_by (o_sorted o) fetched)) ≈ a_sum (map u_assets fetched)).
+    { apply a_sum_perm. apply fmap_Permutation. exact Hp. }
+    rewrite (Hs k). exact Hcov.
+Qed.
